@@ -94,6 +94,12 @@ func drawConfig(t *rapid.T, o simOpts) sim.Config {
 		cfg.FailCommit = []int{rapid.IntRange(0, n-1).Draw(t, "failnode")}
 		cfg.FailCommitH = uint64(rapid.IntRange(1, int(cfg.MaxHeight)).Draw(t, "failh"))
 	}
+	// (not for C05: a failing transport loses messages, which the timely suffix of that property excludes)
+	if o.Focus != "C05" && rapid.IntRange(0, 7).Draw(t, "sendfail?") == 0 { // a transport that fails half way through a broadcast and says so
+		cfg.SendFail = []int{rapid.IntRange(0, n-1).Draw(t, "sendfail-node")}
+		cfg.SendFailU = rapid.SampledFrom([]int{0, 0, 1 + sim.UNV, 1 + sim.UNV, 1 + sim.UPP, 1 + sim.UC, 1 + sim.UVC}).Draw(t, "sendfail-kind")
+		cfg.SendFailNth = rapid.SampledFrom([]int{0, 1, 1, 2}).Draw(t, "sendfail-nth")
+	}
 	if rapid.IntRange(0, 9).Draw(t, "crash?") == 0 {
 		// crash one correct node only if the remaining correct weight still has a chance (not required for safety properties)
 		for i := 0; i < n; i++ {
@@ -420,6 +426,9 @@ func recordSim(col *ev.Collector, w *sim.World) {
 		if w.Obs.HeightsDone > w.Cfg.AbsentH {
 			col.Class("absent-member-height-completed")
 		}
+	}
+	if w.Obs.SendFailures > 0 {
+		col.Class("transport-failure-reported-to-library")
 	}
 	if w.Cfg.Weights[0] >= 1<<53 {
 		col.Class("weights>2^53")
